@@ -1,4 +1,5 @@
-"""C38 - GVCF/VDS combiner merges every input exactly once (claimed clauses: even genome partitioning; merge-plan slices).
+"""C38 - GVCF/VDS combiner merges every input exactly once (claimed clauses: even genome partitioning; merge-plan slices; where
+the merged datasets go and when the final output may be written; step dispatch; the step parameters of new / resumed plans).
 
 calculate_even_genome_partitioning.calc_parts (hail/python/hail/vds/combiner/combine.py): for every contig length L >= 1
 and every interval_size >= 1 the returned inclusive intervals tile [1, L]: first starts at 1, consecutive intervals are
@@ -114,6 +115,9 @@ print(json.dumps(res))
 '''
 
 
+COMBINER_REPLAY = open(__import__('os').path.join(__import__('os').path.dirname(__import__('os').path.abspath(__file__)), 'native', 'c38_combiner_replay.py')).read()
+
+
 # ---- merge plan: every pending input goes into exactly one merge ---------------------------------------------------------------
 COMB = 'hail/python/hail/vds/combiner/variant_dataset_combiner.py'
 
@@ -204,6 +208,7 @@ def _plan(ctx):
     props = _Props(ctx, tree)
     _filing(ctx, tree, props)
     _resume(ctx, tree, _Props(ctx, tree))
+    _setter_and_step(ctx, tree, _Props(ctx, tree))
 
 
 
@@ -225,6 +230,25 @@ def _class_properties(tree, cls):
             elif t == n.name + '.setter':
                 out.setdefault(n.name, {})['set'] = n
     return out
+
+
+class _InlineCtx:
+    """the check context as seen by an inlined property body: its 'precondition' is the caller's path condition, already covered by
+    the caller's vacuity obligations and the executor's feasibility checks, so that one obligation is not repeated per inlining"""
+
+    def __init__(self, ctx):
+        self.__dict__['_ctx'] = ctx
+
+    def __getattr__(self, n):
+        return getattr(self._ctx, n)
+
+    def __setattr__(self, n, v):
+        setattr(self._ctx, n, v)
+
+    def add(self, o, **kw):
+        if o.name.endswith('/vacuity/requires-satisfiable'):
+            return o
+        return self._ctx.add(o, **kw)
 
 
 class _Props:
@@ -273,7 +297,7 @@ class _Props:
 
         c = Contract(path=COMB, qualname='%s.%s' % (self.cls, name), label='%s.%s[%s]#%d' % (self.cls, name, 'setter' if params else 'getter', self.seq), fragment=('re:.', len(fn.body)),
                      setup=setup, calls=self.calls, consts=dict(eng.c.consts, **self.consts), raises={'*': True}, float_as_real=True, strings=eng.c.strings, types=dict(eng.c.types))
-        sub = pyvc.Engine(self.ctx, c)
+        sub = pyvc.Engine(_InlineCtx(self.ctx), c)
         sub.fn = fn  # the def carrying the decorator (getter and setter share a name)
         sub.loop_ordinals = {id(n): k for k, n in enumerate(sub._loops_preorder(fn))}
         outs = []
@@ -415,14 +439,18 @@ def _filing(ctx, tree, props):
         ))
         cs.append(Contract(
             path=COMB, qualname='VariantDatasetCombiner._step_gvcfs', label='VariantDatasetCombiner._step_gvcfs[filing]', fragment=(ganchor, len(g.body) - gi),
-            types=dict(FILING_TYPES, merge_vds='List[U]', merge_n_samples='List[int]'), extra_inputs=dict(FILING_INPUTS, MV='List[U]', MN='List[int]', MM0='List[U]'), strings=True, float_as_real=True,
+            types=dict(FILING_TYPES, merge_vds='List[U]', merge_n_samples='List[int]', FILED_L='List[U]'), extra_inputs=dict(FILING_INPUTS, MV='List[U]', MN='List[int]', MM0='List[U]'), strings=True, float_as_real=True,
             setup=_filing_setup(lambda eng, st: st.env.update({'merge_vds': st.env['MV'], 'merge_n_samples': st.env['MN'], 'merge_metadata': st.env['MM0']})),  # MM0: value of a name the final-write path never binds
-            requires=['BF >= 2', 'len(MV) == len(MN)', 'len(MV) >= 1', "forall(lambda b: implies(b in BINS, len(BINS[b]) >= 1))"], axioms=[META_AXIOM], calls=calls,
-            loops={'re:^for md in ': LoopSpec(index='k_', invariants=[('pending-datasets-kept-in-order', KEPT), ('no-final-write', 'FINAL == 0')])},
+            requires=['BF >= 2', 'len(MV) == len(MN)', 'len(MV) >= 1'], axioms=[META_AXIOM], calls=calls,
+            ghosts=[pyvc.Ghost('re:^self\\._vdses\\[.*\\]\\.append\\(md\\)$', 'FILED_L = FILED_L + [md]')], ghost_init={'FILED_L': '[]'},
+            loops={'re:^for md in ': LoopSpec(index='k_', modifies=['FILED_L'], invariants=[
+                ('pending-datasets-kept-in-order', KEPT), ('no-final-write', 'FINAL == 0'),
+                ('the-records-so-far-are-filed-one-by-one', 'len(FILED_L) == k_ and forall(lambda j: implies(0 <= j < k_, FILED_L[j] == merge_metadata[j]))')])},
             ensures=[
                 ('a-final-write-files-nothing', 'implies(FINAL >= 1, ' + SAME_BINS + ')'),
                 ('pending-gvcfs-untouched', 'self._gvcfs == G'),
                 ('pending-datasets-are-kept-in-order', KEPT),
+                ('every-record-is-filed-exactly-once', 'implies(FINAL == 0, FILED_L == merge_metadata)'),
                 ('one-record-per-imported-dataset-with-its-sample-count', 'implies(FINAL == 0, len(merge_metadata) == len(MV) and forall(lambda j: implies(0 <= j < len(MN), merge_metadata[j].n_samples == MN[j])))'),
             ],
             raises={}, canaries=[('never-final', 'FINAL == 0'), ('always-final', 'FINAL == 1')],
@@ -448,22 +476,43 @@ def _filing(ctx, tree, props):
             path=COMB, qualname='VariantDatasetCombiner._step_vdses', label='VariantDatasetCombiner._step_vdses[filing]', fragment=(vanchor, len(v.body) - vi),
             types=dict(FILING_TYPES), extra_inputs=dict(FILING_INPUTS, CMB='U', TP='str', NS='int', OB='int', NB0='int'), strings=True, float_as_real=True,
             setup=_filing_setup(lambda eng, st: st.env.update({'combined': st.env['CMB'], 'temp_path': st.env['TP'], 'new_n_samples': st.env['NS'], 'original_bin': st.env['OB'], 'new_bin': st.env['NB0']})),
-            requires=['BF >= 2', 'NS >= 1', "forall(lambda b: implies(b in BINS, len(BINS[b]) >= 1))"], axioms=[META_AXIOM], calls=calls,
-            ghost_init={},
+            requires=['BF >= 2', 'NS >= 1'], calls=calls,  # no quantified hypothesis: a wrong bin has a counter-model the solver can produce
             ensures=[
                 ('a-final-write-files-nothing', 'implies(FINAL >= 1, ' + SAME_BINS + ')'),
                 ('pending-gvcfs-untouched', 'self._gvcfs == G'),
                 ('otherwise-the-merged-dataset-is-filed-in-a-later-bin', 'implies(FINAL == 0, new_bin > OB and new_bin in self._vdses)'),
-                ('at-the-end-of-that-bin-with-the-merged-sample-count', 'implies(FINAL == 0, len(self._vdses[new_bin]) == ite(new_bin in OLD, len(OLD[new_bin]), 0) + 1 and self._vdses[new_bin][len(self._vdses[new_bin]) - 1].n_samples == NS)'),
+                ('at-the-end-of-that-bin', 'implies(FINAL == 0, len(self._vdses[new_bin]) == ite(new_bin in OLD, len(OLD[new_bin]), 0) + 1)'),
                 ('pending-datasets-are-kept-in-order', KEPT),
                 ('other-bins-untouched', 'implies(FINAL == 0, forall(lambda b: implies(b != new_bin, (b in self._vdses) == (b in OLD) and implies(b in OLD, self._vdses[b] == OLD[b]))))'),
             ],
             raises={}, canaries=[('never-final', 'FINAL == 0'), ('always-final', 'FINAL == 1')],
         ))
+    if vi is not None:
+        cs.append(Contract(
+            path=COMB, qualname='VariantDatasetCombiner._step_vdses', label='VariantDatasetCombiner._step_vdses[filing: sample count]', fragment=(vanchor, len(v.body) - vi),
+            types=dict(FILING_TYPES), extra_inputs=dict(FILING_INPUTS, CMB='U', TP='str', NS='int', OB='int', NB0='int'), strings=True, float_as_real=True,
+            setup=_filing_setup(lambda eng, st: st.env.update({'combined': st.env['CMB'], 'temp_path': st.env['TP'], 'new_n_samples': st.env['NS'], 'original_bin': st.env['OB'], 'new_bin': st.env['NB0']})),
+            requires=['BF >= 2', 'NS >= 1'], axioms=[META_AXIOM], calls=calls,
+            ensures=[('the-new-record-carries-the-merged-sample-count', 'implies(FINAL == 0, self._vdses[new_bin][len(self._vdses[new_bin]) - 1].n_samples == NS)')],
+            raises={},
+        ))
+    if gi is not None:
+        # how many records are filed, with quantifier-free invariants (a loop that skips a record then has a counter-model)
+        cs.append(Contract(
+            path=COMB, qualname='VariantDatasetCombiner._step_gvcfs', label='VariantDatasetCombiner._step_gvcfs[filing: count]', fragment=(ganchor, len(g.body) - gi),
+            types=dict(FILING_TYPES, merge_vds='List[U]', merge_n_samples='List[int]'), extra_inputs=dict(FILING_INPUTS, MV='List[U]', MN='List[int]', MM0='List[U]'), strings=True, float_as_real=True,
+            setup=_filing_setup(lambda eng, st: st.env.update({'merge_vds': st.env['MV'], 'merge_n_samples': st.env['MN'], 'merge_metadata': st.env['MM0'], 'FILED': z3.IntVal(0)})),
+            requires=['BF >= 2', 'len(MV) == len(MN)', 'len(MV) >= 1'], calls=calls,
+            ghosts=[pyvc.Ghost('re:^self\\._vdses\\[.*\\]\\.append\\(md\\)$', 'FILED = FILED + 1')],
+            loops={'re:^for md in ': LoopSpec(index='k_', modifies=['FILED'], invariants=[('no-final-write', 'FINAL == 0'), ('one-filing-per-round', 'FILED == k_')])},
+            ensures=[('as-many-filings-as-imported-datasets', 'implies(FINAL == 0, FILED == len(MV) and len(merge_metadata) == len(MV))')],
+            raises={},
+        ))
     # (7) __init__ files the input datasets with the same statement
     cs.append(_file_one('VariantDatasetCombiner.__init__', 'VariantDatasetCombiner.__init__[file one input dataset]', 'vds', calls))
     for c in cs:
         eng = pyvc.Engine(ctx, c)
+        eng.replayer = lambda model, obl: core.run_native(COMBINER_REPLAY, {'scenario': 'search'}, timeout=300)
         eng.run()
         ctx.add(core.decided('C38/%s/no-call-outside-the-contract' % eng.label, not eng.unmodelled, repr(eng.unmodelled), kind='frame'))
 
@@ -502,7 +551,7 @@ def _resume(ctx, tree, props):
     })
     c = Contract(
         path=COMB, qualname='new_combiner.maybe_load_from_saved_path', types={'save_path': 'str'}, strings=True, float_as_real=True,
-        extra_inputs={'force': 'bool', 'branch_factor': 'int', 'target_records': 'int', 'gvcf_batch_size': 'int', 'LG': 'List[U]', 'LB': 'Map[int, List[U]]', 'LBS': 'int', 'LBF': 'int', 'LTR': 'int',
+        extra_inputs={'force': 'bool', 'branch_factor': 'int', 'target_records': 'int', 'gvcf_batch_size': 'int', 'gvcf_paths': 'List[U]', 'vds_paths': 'List[U]', 'gvcf_sample_names': 'List[U]', 'LG': 'List[U]', 'LB': 'Map[int, List[U]]', 'LBS': 'int', 'LBF': 'int', 'LTR': 'int',
                       'LI': 'List[U]', 'LN': 'List[U]'},
         requires=['branch_factor >= 2', 'gvcf_batch_size >= 1', 'LBS >= 1', 'LBF >= 2'], calls=calls,
         ensures=[
@@ -513,13 +562,120 @@ def _resume(ctx, tree, props):
         raises={'FatalError': True}, canaries=[('never-resumes', 'result is None')],
     )
     eng = pyvc.Engine(ctx, c)
+    eng.replayer = lambda model, obl: core.run_native(COMBINER_REPLAY, {'scenario': 'resume'}, timeout=300)
     eng.run()
     ctx.add(core.decided('C38/%s/no-call-outside-the-contract' % eng.label, not eng.unmodelled, repr(eng.unmodelled), kind='frame'))
 
 
+
+def _setter_and_step(ctx, tree, props):
+    # (8) the public batch-size setter (the only other writer of _gvcf_batch_size besides __init__ and the resume path)
+    pr = _class_properties(tree, 'VariantDatasetCombiner')
+    if 'set' in pr.get('gvcf_batch_size', {}):
+        fn = pr['gvcf_batch_size']['set']
+        c = Contract(
+            path=COMB, qualname='VariantDatasetCombiner.gvcf_batch_size', label='VariantDatasetCombiner.gvcf_batch_size[setter]', types={'value': 'int'}, strings=True,
+            self_fields={'_gvcf_import_intervals': 'List[U]', '_gvcf_batch_size': 'int'}, consts=dict(props.consts), calls={'warning': lambda eng, st, args, kw, node: None},
+            requires=['value >= 1'],
+            ensures=[
+                ('never-more-than-requested', 'self._gvcf_batch_size <= old(value)'),
+                ('unchanged-request-when-within-the-task-limit', 'implies(old(value) * len(self._gvcf_import_intervals) <= LIMIT, self._gvcf_batch_size == old(value))'),
+                ('import-intervals-untouched', 'self._gvcf_import_intervals == old(self._gvcf_import_intervals)'),
+                ('batch-size-stays-at-least-one', 'self._gvcf_batch_size >= 1'),
+            ],
+            ghost_init={'LIMIT': 'VariantDatasetCombiner._gvcf_merge_task_limit'}, raises={}, canaries=[('never-clamps', 'self._gvcf_batch_size == old(value)')],
+        )
+        eng = pyvc.Engine(ctx, c)
+        eng.fn = fn
+        eng.loop_ordinals = {id(n): k for k, n in enumerate(eng._loops_preorder(fn))}
+        eng.replayer = lambda model, obl: core.run_native(COMBINER_REPLAY, {'scenario': 'setter'})
+        eng.run()
+    # closed world: who writes the two step parameters
+    writers = []
+    for n in _ast.walk(tree):
+        tg = []
+        if isinstance(n, _ast.Assign):
+            tg = n.targets
+        elif isinstance(n, (_ast.AugAssign, _ast.AnnAssign)):
+            tg = [n.target]
+        for t in tg:
+            for x in _ast.walk(t):
+                if isinstance(x, _ast.Attribute) and isinstance(x.ctx, _ast.Store) and x.attr in ('_gvcf_batch_size', 'gvcf_batch_size', '_branch_factor'):
+                    writers.append('%s = %s' % (_ast.unparse(x), _ast.unparse(n.value) if getattr(n, 'value', None) is not None else '?'))
+    expected = sorted(['self._branch_factor = branch_factor', 'self._gvcf_batch_size = gvcf_batch_size', 'self._gvcf_batch_size = value', 'combiner._branch_factor = branch_factor', 'combiner._gvcf_batch_size = gvcf_batch_size'])
+    ctx.add(core.decided('C38/VariantDatasetCombiner/step-parameters-are-written-only-by-init-the-setter-and-the-resume-path', sorted(writers) == expected, repr(sorted(writers)), kind='scan'))
+    init = pyvc.find_function(tree, 'VariantDatasetCombiner.__init__')
+    rebound = [n.id for n in _ast.walk(init) if isinstance(n, _ast.Name) and isinstance(n.ctx, (_ast.Store, _ast.Del)) and n.id in ('branch_factor', 'gvcf_batch_size')]
+    ctx.add(core.decided('C38/VariantDatasetCombiner.__init__/validated-parameters-are-stored-as-validated', not rebound, repr(rebound), kind='scan'))
+    c = Contract(
+        path=COMB, qualname='VariantDatasetCombiner.__init__', label='VariantDatasetCombiner.__init__[parameter validation]', fragment=('re:^if branch_factor < 2$', 're:^if gvcf_batch_size < 1$'), strings=True,
+        extra_inputs={'branch_factor': 'int', 'gvcf_batch_size': 'int'},
+        ensures=[('a-new-plan-takes-at-least-one-input-per-step', 'branch_factor >= 2 and gvcf_batch_size >= 1')], raises={'ValueError': 'branch_factor < 2 or gvcf_batch_size < 1'},
+        canaries=[('rejects-nothing', 'branch_factor < 2')],
+    )
+    pyvc.Engine(ctx, c).run()
+    ctx.add(core.decided('C38/VariantDatasetCombiner.__init__/pending-datasets-live-in-a-defaultdict-of-lists', 'self._vdses = collections.defaultdict(list)' in _ast.unparse(init)
+                         and sum(1 for n in _ast.walk(tree) if isinstance(n, _ast.Assign) and any(_ast.unparse(t).endswith('._vdses') for t in n.targets)) == 1, '', kind='scan'))
+    md = [n for n in tree.body if isinstance(n, _ast.ClassDef) and n.name == 'VDSMetadata']
+    fields = [x.target.id for x in md[0].body if isinstance(x, _ast.AnnAssign)] if md else []
+    ctx.add(core.decided('C38/VDSMetadata/is-the-pair-path-n_samples', fields == ['path', 'n_samples'] and [_ast.unparse(b) for b in md[0].bases] == ['NamedTuple'], repr(fields), kind='scan'))
+
+    # (9) step(): which of the two step functions runs, and that each runs only where its selection contract applies
+    def stepper(which):
+        def model(eng, st, args, kw, node):
+            rec = st.env['self']
+            st.env['CALLED_' + which] = st.env['CALLED_' + which] + 1
+            if which == 'G':
+                st.env['PRE_G'] = rec.fields['_gvcfs'].len >= 1
+            else:
+                st.env['PRE_V'] = rec.fields['_vdses'].size >= 1
+            for f, t in (('_gvcfs', 'List[U]'), ('_vdses', 'Map[int, List[U]]')):
+                v = pyvc.fresh_value(pyvc.parse_type(t), 'after_step' + f)
+                for w in pyvc.wf_constraints(v):
+                    st.assume(w)
+                rec.fields[f] = v
+            return None
+        return model
+
+    def setup(eng, st):
+        st.env.update({'CALLED_G': z3.IntVal(0), 'CALLED_V': z3.IntVal(0), 'PRE_G': z3.BoolVal(True), 'PRE_V': z3.BoolVal(True)})
+
+    c = Contract(
+        path=COMB, qualname='VariantDatasetCombiner.step', self_fields={'_gvcfs': 'List[U]', '_vdses': 'Map[int, List[U]]', '_job_id': 'int'}, setup=setup,
+        calls=props.models({'self._step_gvcfs': stepper('G'), 'self._step_vdses': stepper('V')}),
+        ensures=[
+            ('a-gvcf-step-runs-only-with-pending-gvcfs', 'implies(CALLED_G >= 1, PRE_G)'),
+            ('a-dataset-step-runs-only-with-pending-datasets', 'implies(CALLED_V >= 1, PRE_V)'),
+            ('exactly-one-step-unless-finished', 'CALLED_G + CALLED_V == ite(len(old(self._gvcfs)) == 0 and len(old(self._vdses)) == 0, 0, 1)'),
+            ('a-finished-plan-is-left-alone', 'implies(len(old(self._gvcfs)) == 0 and len(old(self._vdses)) == 0, self._gvcfs == old(self._gvcfs) and len(self._vdses) == 0 and self._job_id == old(self._job_id))'),
+            ('an-unfinished-plan-gets-a-new-job-number', 'implies(len(self._gvcfs) > 0 or len(self._vdses) > 0, self._job_id == old(self._job_id) + 1)'),
+        ],
+        raises={}, canaries=[('never-steps', 'CALLED_G + CALLED_V == 0'), ('only-gvcf-steps', 'CALLED_V == 0')],
+    )
+    eng = pyvc.Engine(ctx, c)
+    eng.run()
+    ctx.add(core.decided('C38/%s/no-call-outside-the-contract' % eng.label, not eng.unmodelled, repr(eng.unmodelled), kind='frame'))
+    # run(): save, step, ... until finished, then one more save
+    run = pyvc.find_function(tree, 'VariantDatasetCombiner.run')
+    loops = [n for n in run.body if isinstance(n, _ast.While)]
+    ok = len(loops) == 1 and _ast.unparse(loops[0].test) == 'not self.finished' and [_ast.unparse(x) for x in loops[0].body] == ['self.save()', 'self.step()'] and not loops[0].orelse
+    ok = ok and _ast.unparse(run.body[run.body.index(loops[0]) + 1]) == 'self.save()' if ok else False
+    ctx.add(core.decided('C38/VariantDatasetCombiner.run/saves-the-plan-before-every-step-steps-until-finished-and-saves-the-finished-plan', ok, '', kind='scan'))
+    ctx.under_contract(COMB, 'VariantDatasetCombiner.run (loop shape)')
+
+
+def _search():
+    r = core.run_native(REPLAY, {'search': True})
+    if r.get('confirmed'):
+        return r
+    r2 = core.run_native(COMBINER_REPLAY, {'scenario': 'search'}, timeout=300)
+    return r2 if r2.get('confirmed') or 'error' not in r2 else r
+
+
 def native_witness(ctx):
-    """concrete search on the real code, usable when the contracts no longer apply to a changed source (vc/check.py)"""
-    return core.run_native(REPLAY, {'search': True})
+    """concrete search on the real code, usable when the contracts no longer apply to a changed source (vc/check.py): the
+    partitioning on small contigs, then the real combiner class driven step by step on small plans / through the resume path"""
+    return _search()
 
 
 def build(ctx):
@@ -539,10 +695,14 @@ def build(ctx):
     eng.replayer = replayer
     eng.run()
     _plan(ctx)
-    ctx.witness_search = lambda: core.run_native(REPLAY, {'search': True})
+    ctx.witness_search = _search
     ctx.assume('math.ceil(a / b) on Python ints equals the exact rational ceiling (float division rounding cannot cross an integer for a < 2**53; contig lengths are < 2**31)')
     ctx.assume('"no longer than requested" is read as end - start <= interval_size (the code\'s own unit; an inclusive interval then holds one more locus)')
     ctx.assume('hl.Interval / hl.Locus are value constructors: an interval is the pair (start position, end position), includes_end=True')
-    ctx.undecided('merge plan: the selection statements of _step_vdses / _step_gvcfs are under contract (splits per bin); that the new dataset is filed in a later bin and the run terminates is not')
-    ctx.undecided('save/resume of the combiner plan (JSON encode/decode of the combiner state)')
-    ctx.undecided('engine calls (combine_variant_datasets, import_gvcfs) and termination of run()')
+    ctx.assume('calls into the query engine, the file system and the logger (hl.*, dataset.write, os.path.join, info/warning) do not touch the combiner plan; their results are opaque')
+    ctx.assume('VDSMetadata(path, n_samples) is a free pair constructor (typing.NamedTuple with exactly these fields: checked on the class)')
+    ctx.assume('floor(log(n, b)) is some integer (nothing about its value is used: bins only need to be >= 1 / above the starting bin, which the code forces itself)')
+    ctx.assume('new_combiner is called with branch_factor >= 2 and gvcf_batch_size >= 1 also when it resumes a saved plan (only __init__ validates them; the resume path stores them unchecked)')
+    ctx.undecided('termination of run(): every GVCF step takes at least one GVCF, the merged dataset goes to a later bin, step() runs exactly one step - proved; that a non-final dataset step merges at least two datasets (so the number of pending datasets falls) is not')
+    ctx.undecided('save/resume: the resume path of new_combiner is under contract given what load_combiner returns; the JSON Encoder / Decoder round trip of the plan (to_dict, Decoder._object_hook) is not')
+    ctx.undecided('engine calls (combine_variant_datasets, import of the GVCF batches): that the dataset written is built from exactly the files selected')
